@@ -1,7 +1,7 @@
 (* Extract.v — extraction of the executable model for the correspondence check.
    Only ExtrOcamlBasic (bool, option, unit, list, prod, sumbool -> OCaml types of the same name);
    no Extract Constant; N / positive / nat stay the extracted inductive types. *)
-From Flatty.Model Require Import Base Ty Layout Utf8 Validate View Emplace Ops Io.
+From Flatty.Model Require Import Base Ty Layout Utf8 Validate View Emplace Ops Io Portable.
 Require Extraction.
 Require Import ExtrOcamlBasic.
 Extraction Language OCaml.
@@ -14,4 +14,5 @@ Extraction "model.ml"
   Emplace.emplace Emplace.assign_in_place Emplace.default_in_place
   Ops.vec_op Ops.flex_op
   Io.io_capacity Io.new_buffer Io.recv_many Io.arecv_many Io.send_many Io.asend_many
-  Io.sys_step Io.run_schedule Io.run_tail Io.sys_done.
+  Io.sys_step Io.run_schedule Io.run_tail Io.sys_done
+  Portable.p_enc Portable.p_dec.
